@@ -11,14 +11,18 @@ RULE = ("(format, assignment, spelling): formats = 40 fixed ones + formats drawn
         "optional/multi-valued x type x nullable x default, 0-2 command names with 0-2 aliases, 0-2 base levels). For small formats "
         "(<= 2 options, <= 2 arguments, <= 1 command name) every interleaving of the option items among the positionals x every "
         "form ('--n=v', '--n v', '-nv', '-n v', bare flags) x every way of writing adjacent short options as one group x every "
-        "'--' placement x given/omitted command names spelled by name or alias, strict and lenient (capped per assignment); "
+        "'--' placement x given/omitted command names spelled by name or alias and standing anywhere among the option items, also "
+        "behind '--' (they are the first positional tokens of the line), strict and lenient (capped per assignment); "
         "seeded random spellings for larger formats, a third of them built around a group of short flags of any length with or "
-        "without a valued last member. The expected Args observation is computed from the assignment alone. Non-trivial = "
+        "without a valued last member; lines that give a valued option a command name as its value. Every case carries its "
+        "generalised line description (ld2 of Model/Spell.v), the cases with all command names in front also the older one. "
+        "The expected Args observation is computed from the assignment alone. Non-trivial = "
         ">= 1 option item and >= 1 positional; distinct by (format, mode, tokens)")
 TRUSTED = ["the expected observation is computed by an independent Python function from the assignment (oracle)"]
-ASSUMPTIONS = ["lines satisfy the side conditions of wf_line (Model/Spell.v): separated values do not start with '-' and are not empty, "
+ASSUMPTIONS = ["lines satisfy the side conditions of wf_line2 (Model/Spell.v; wf_line when the command names come first): separated values do not start with '-' and are not empty, "
                "pre-'--' positionals do not start with '-' (except '-' itself; the empty token is allowed), an omitted optional value "
-               "is not followed by a positional other than '-', an omitted command name is not followed by a positional equal to it; "
+               "is not followed by a positional other than '-', an omitted command name is not followed by a positional equal to it, no positional value "
+               "stands in front of a command name, a command name does not follow an omitted optional value; "
                "single-valued options occur once; negative argument positions are not probed (outside the model)"]
 
 EXTRA = ["zz"]
